@@ -68,7 +68,7 @@ def _acc(rng):
     return rng.randint(0, M)
 
 def _candidate(rng):
-    fam = rng.choice(["noreversal", "reversal_small", "reversal_large", "zero_at_tick", "constant", "boundary", "early_reversal", "legacy", "invalid", "tiny", "long", "knife", "knife", "zero_disc", "first_tick", "peak_misses_boundary"])
+    fam = rng.choice(["noreversal", "reversal_small", "reversal_large", "zero_at_tick", "constant", "boundary", "early_reversal", "legacy", "invalid", "tiny", "long", "knife", "knife", "zero_disc", "first_tick", "peak_misses_boundary", "late_reversal"])
     s = lambda: rng.choice([1, -1])
     if fam == "invalid":
         return rng.choice([(0, rng.randint(-9, 9), rng.randint(-9, 9)), (rng.randint(1, 9), 0, 0), (-rng.randint(1, 9), -rng.randint(1, 10**6), rng.randint(-5, 5))]), fam
@@ -159,6 +159,16 @@ def _candidate(rng):
                 sg = s()
                 return (m, sg * (r0 + tq(a, 2)), sg * a, (acc if sg > 0 else M - acc) if acc else None), fam
         return (1, 1, 0), "tiny"
+    if fam == "late_reversal":
+        # a near-maximal rate, a tiny deceleration: the move turns after 10^7 .. 2*10^9 ticks with a running total of 2^54 .. 2^61 that lies
+        # within a few accumulator units of a step boundary, and the budget is reached one or a few steps after the turn
+        a = -rng.choice([1, 2, 3, 7, 12, rng.randint(1, 250)]); r0 = rng.randint(M // 2, M)
+        kr = r0 // (-a); D = r0 * kr + a * kr * (kr + 1) // 2
+        m = rng.choice([0, 1, 2, 5, 10, 14, 40, 200, 1000]) * rng.choice([1, -1])
+        acc = (m - D) % B
+        steps = ((acc + D) >> 31) + rng.choice([1, 1, 2, 5, 0, -1])
+        sg = s()
+        return (steps, sg * (r0 + tq(a, 2)), sg * a, acc if sg > 0 else M - acc), fam
     if fam == "long":
         rate = s() * rng.randint(1, 2000); return (rng.randint(1, 2000), rate, rng.choice([0, 0, 1, -1]) if abs(rate) > 500 else 0), fam
     return (1, 1, 0), fam
